@@ -25,8 +25,14 @@ def run(tier, seed, build):
     res = common.Result(PID)
     res.rule = ("programs from the C03 generator + corpus; the REAL FileIr is serialised (serialise_irs) before and after "
                 "the real generate_results_from_ir, results are generated twice from the same IR; the Lean model is run for "
-                "two rounds over one store and must reproduce results and post-run IR of both rounds. non-trivial = distinct "
-                "program with >= 1 resolvable call")
+                "two rounds over one store and must reproduce results and post-run IR of both rounds. Multi-file stage "
+                "(props/c14multi.py): generated projects (target + modules + a package) whose calls reach every branch of "
+                "find_call_target_and_ir / resolve_import from the target and from inside a followed import (callee ignored, "
+                "excluded, undefined, a method, re-exported, a class, a static method, a lambda, a variable, in a stdlib / excluded "
+                "module; 6 import forms; follow level 0/1, --exclude-import); serialise_irs over ALL FileIrs + a deep structural "
+                "snapshot before / after one / after two generations, the CLI's `-o ir` on a sample; the Lean project model "
+                "resolves every call itself and must reproduce resolution, results and every set of every module. "
+                "non-trivial = distinct program with >= 1 resolvable call (multi-file: >= 1 call resolved across a module boundary)")
     rng = random.Random(seed)
     n = 300 if tier == "quick" else 4000
     programs = list(c03.CORPUS)
@@ -113,7 +119,14 @@ def run(tier, seed, build):
     from props import pipeline
     pipeline.run_pipeline_stage(res, random.Random(seed + 7103), 25 if tier == "quick" else 300, model,
                                 cli_sample=0, curated=False)
+    # ---- multi-file projects: the IR of every followed import must survive result generation as well
+    from props import c14multi
+    c14multi.run_stage(res, random.Random(seed + 1409), tier, model)
     res.assumptions = ["serialise_irs is the observable IR (C18 is about its canonicity)",
+                       "multi-file stage: module_exists / the ladder verdicts of resolve_import / is_excluded_name / "
+                       "derive_module_name_from_path are taken from the real code as data (C12, C13); the call target each Call symbol "
+                       "carries is taken from the analysis (C06); the CLI's `-o ir` is compared with locations stripped (C18 finding: "
+                       "the location a merged set member carries is hash-seed dependent)",
                        "pipeline stage: see C03 (follow-imports 0; hash-order dependent modules skipped)"]
     return res
 
@@ -152,6 +165,31 @@ def classify_mutation(bj, mj, n_res):
 
 
 def replay(path):
+    """Print the failing input; a multi-file case is re-run (analysis, two generations) and what changed in which
+    FileIr is printed. Exit 1 when the IR changes / the generations differ on the current tree."""
     j = json.load(open(path))
-    print(json.dumps(j, indent=1)[:4000])
-    return 0
+    case = j.get("case", {})
+    if "files" not in case:
+        print(json.dumps(j, indent=1)[:4000])
+        return 0
+    import tempfile
+    from pathlib import Path
+    from props import c14multi
+    print(json.dumps({k: v for k, v in j.items() if k not in ("first", "second")}, indent=1)[:6000])
+    spec = {"files": case["files"], "level": case.get("follow_imports", 1), "excluded_imports": case.get("exclude_import", []),
+            "excluded_names": case.get("exclude", [])}
+    d = Path(tempfile.mkdtemp(prefix="rattr-c14-replay-"))
+    c14multi.write_project(d, spec["files"])
+    obs = c14multi.observe(d, spec)
+    if obs["analysis"] != "ok":
+        print("analysis:", obs["analysis"])
+        return 2
+    bad = False
+    for r in (0, 1):
+        ch = c14multi.classify_change(obs["docs"][r], obs["docs"][r + 1], obs["snaps"][r], obs["snaps"][r + 1], lambda m, f: True)
+        print(f"generation {r + 1}: {obs['outs'][r][0]}; IR changes: {ch}")
+        bad = bad or any(not known for _, _, known in ch) or obs["outs"][r][0] != "ok"
+    if obs["outs"][0] != obs["outs"][1]:
+        print("the two generations return different results")
+        bad = True
+    return 1 if bad else 0
